@@ -75,32 +75,3 @@ Proof.
   intros Hwf Hd. rewrite (parse_auto_forced sp); [apply parse_render; exact Hwf | exact Hd |].
   intros ->. eexists. reflexivity.
 Qed.
-
-(* ---- witnesses of the known findings ---- *)
-(* F21, what is left of it after the parser repair: SearchTerms.__str__ writes
-   a term that starts and ends with the same quote character without
-   escaping the quotes, so the canonical text re-parses to the bare term *)
-Lemma F21_canon_witness :
-  exists (sp : sep) (l : list sseg),
-    l = [((Some TSearch, ASearch false MEquals "a" "'x'"), plain_style)]
-    /\ wf sp l = true /\ wfc sp l = false
-    /\ render_ref sp l = "[a=\'x\']"
-    /\ parse (Forced sp) true (render_ref sp l) = Ok (segs_of l)
-    /\ path_str (Forced sp) (render_ref sp l) = Ok "[a=\'x\']"
-    /\ path_str (Forced sp) """a""[b=""'x'""]" = Ok "a[b='x']"
-    /\ parse (Forced sp) true """a""[b=""'x'""]" = Ok [(Some TKey, AStr "a"); (Some TSearch, ASearch false MEquals "b" "'x'")]
-    /\ parse (Forced sp) true "a[b='x']" = Ok [(Some TKey, AStr "a"); (Some TSearch, ASearch false MEquals "b" "x")].
-Proof.
-  exists Dot, [((Some TSearch, ASearch false MEquals "a" "'x'"), plain_style)].
-  repeat split; vm_compute; reflexivity.
-Qed.
-
-Lemma F23_witness :
-  exists (l : list sseg),
-    wfc Dot l = true /\ wfc Slash l = true
-    /\ parse Auto true (render_ref Dot l) = parse Auto true (render_ref Slash l)
-    /\ y_eq (y_new (render_ref Dot l)) (render_ref Slash l) = Ok false.
-Proof.
-  exists [((Some TKey, AStr "a.b"), plain_style)].
-  split; [vm_compute; reflexivity|]. split; [vm_compute; reflexivity|]. split; vm_compute; reflexivity.
-Qed.
